@@ -329,7 +329,7 @@ def run(ck):
                "the order of one frame; the load and an independent tally of delivered data are checked against the bandwidth after every "
                "attempt; non-trivial = a tree with nesting or a refused/undelivered attempt; evaluations count every bound check")
     coq_props(ck)
-    gen_tie.check(ck, ["link"])
+    gen_tie.check(ck, ["link", "linktx"])
     mon = Monitor(ck)
     mon.install()
     coq_in = []
